@@ -100,7 +100,7 @@ Section View.
   Definition snap_vcell (e_now : env) (s : snap) : vcell :=
     let c := new_cell W (snd s) (fst s) in
     mkVCell (cell_text c) (cell_empty c)
-            (match fst s with IObj id => json_enc (e_now id) | it => json it end)
+            (match fst s with IObj id => json_enc (e_now id) | _ => json (fst s) end)
             (cell_width c) (cell_height c) (item_is_widther e_now (fst s)).
 
   Definition mview (st : mstate) : view := table_view (snap_vcell (m_env st)) (m_tab st).
